@@ -245,7 +245,10 @@ def discipline(ops, mode):
             last = "write"
         elif k in ("FSeek", "FFlush"):
             if k == "FSeek":
-                last = None
+                # every seek flushes first, but only a seek that is certainly ACCEPTED (absolute, non-negative, or
+                # seek(0, 1)) drops the read-ahead: a refused negative seek leaves the read buffer in place
+                if last == "write" or (o[2] == 0 and o[1] >= 0) or (o[2] == 1 and o[1] == 0):
+                    last = None
             elif last == "write":
                 # flush alone empties the write buffer but the positions are only resynchronised by seek
                 pass
